@@ -118,7 +118,7 @@ theorem makeDecoysE_reread {perms : Nat → List Nat} (hp : PermFamily perms) (p
         = some (renderFasta w ((if concat then ts else []) ++ ts.map (decoySpecE perms pre ends))) ∧
       parseFasta [renderFasta w ((if concat then ts else []) ++ ts.map (decoySpecE perms pre ends))]
         = some ((if concat then ts else []) ++ ts.map (decoySpecE perms pre ends)) := by
-  obtain ⟨hne, hclean⟩ := parseFasta_clean hparse
+  have hclean := parseFasta_clean hparse
   have htOK : ∀ t ∈ ts, NameOK t.1 ∧ SeqOK t.2 := fun t ht =>
     ⟨(hclean t ht).1, fun c hc => ⟨(hclean t ht).2 c hc, fun h0 => hgt t ht (h0 ▸ hc)⟩⟩
   have hdOK : ∀ d ∈ ts.map (decoySpecE perms pre ends), NameOK d.1 ∧ SeqOK d.2 := by
@@ -137,8 +137,7 @@ theorem makeDecoysE_reread {perms : Nat → List Nat} (hp : PermFamily perms) (p
     rw [hparse]
     simp only [Option.bind_some, shuffleProteinsE_closed hp pre he]
     cases concat <;> simp
-  · apply parseFasta_renderFasta w hw
-    · cases concat <;> simp [hne]
+  · apply parseFasta_renderFasta_any w hw
     · intro e he'
       rcases List.mem_append.mp he' with he' | he'
       · cases concat
